@@ -159,3 +159,19 @@ def resub_hook(rx, rep, why):
             fired.append('ABSTRACT /%s/ -> %s (%s) x%d' % (rx[:60], rep[:60], why, n))
         return body
     return hook
+
+
+def presub_locate(scope, name, subs):
+    """-> Fn.locate: literal substitutions on the function's ORIGINAL text, before the standard rules run (needed where a standard rule -
+    R7 `format!(..)` -> fmt_opaque() - would erase what a contract speaks about).  Each (old, new, why) must occur exactly once; logged."""
+    def locate(src, fired):
+        d = dict(src.find_fn(scope, name))
+        body = d['body']
+        for (old, new, why) in subs:
+            if body.count(old) != 1:
+                raise X.ExtractError('ANCHOR-LOST presub in %s: %r occurs %d times' % (name, old, body.count(old)))
+            body = body.replace(old, X._pad(new, old))
+            fired.append('PRESUB %r -> %r (%s)' % (old, new, why))
+        d['body'] = body
+        return d
+    return locate
